@@ -541,6 +541,34 @@ func c05observe[V any](im c05impl[V], m *ordered.Map[string, V], model *c05model
 		return ""
 	})
 	if sa, ok := any(m).(*ordered.MapSA); ok && m != nil {
+		// the map as the source of ordered.Unmarshal (what the parser does with every mapping): key "a" goes to its field,
+		// every other live key to the inline catch-all, tombstones nowhere
+		check("Unmarshal-into-struct", func() string {
+			var dst struct {
+				A    any            `yaml:"a"`
+				Rest map[string]any `yaml:",inline"`
+			}
+			if err := ordered.Unmarshal(sa, &dst); err != nil {
+				return "Unmarshal error " + err.Error()
+			}
+			wantRest := 0
+			for _, e := range model.ents {
+				if e.k == "a" {
+					if fmt.Sprint(dst.A) != fmt.Sprint(e.v) {
+						return fmt.Sprintf("field a = %v, model %v", dst.A, e.v)
+					}
+					continue
+				}
+				wantRest++
+				if got, ok := dst.Rest[e.k]; !ok || fmt.Sprint(got) != fmt.Sprint(e.v) {
+					return fmt.Sprintf("inline[%q] = %v (present %v), model %v", e.k, got, ok, e.v)
+				}
+			}
+			if len(dst.Rest) != wantRest {
+				return fmt.Sprintf("inline part has %d entries %v, model has %d keys other than a", len(dst.Rest), dst.Rest, wantRest)
+			}
+			return ""
+		})
 		check("ToMapRecursive", func() string {
 			um, _ := ordered.ToMapRecursive(sa).(map[string]any)
 			if len(um) != n {
